@@ -639,6 +639,11 @@ class Decoder:
         # Updated the total consumed length.
         total_consumed += length + consumed
 
+        # Copy the literals out of the caller's buffer: they outlive this call
+        # in the header table and in the returned header.
+        name = bytes(name)
+        value = bytes(value)
+
         # If we have been told never to index the header field, encode that in
         # the tuple we use.
         header: HeaderTuple
